@@ -156,6 +156,17 @@ class Opaque:
         return f"<opaque {self.label}>"
 
 
+class Stale:
+    """State left behind by an earlier call on the same object.  Reading it in a branch or in arithmetic is a
+    failed frame obligation (the result would depend on call history)."""
+
+    def __init__(self, label):
+        self.label = label
+
+    def __repr__(self):
+        return f"<stale {self.label}>"
+
+
 class Env:
     def __init__(self, parent=None, module=None):
         self.vars: dict = {}
@@ -554,6 +565,9 @@ class Interp:
 
     # ---- truth
     def truth(self, v) -> bool:
+        if isinstance(v, Stale):
+            self.oblige(f"no-read-of-stale-state.{v.label}", sp.false, kind="frame")
+            return self.decide(self.fresh_bool(f"stale.{v.label}"))
         if isinstance(v, (bool, np.bool_)):
             return bool(v)
         if v is None:
